@@ -155,7 +155,10 @@ def rule_b(ck, R):
     eng = sym.Engine(R.u, sizeof=R.so, inline=set())
     n = 0
     for fn in ('register_setx', 'register_get', 'register_default', 'register_block_read', 'register_block_write',
-               'register_foreach_in', 'register_sanitise', 'register_user_init'):
+               'register_foreach_in', 'register_sanitise', 'register_user_init',
+               # public block-level entry points that walk the area list themselves (the *_unsafe variants are documented
+               # as unchecked and are not meant here)
+               'register_block_touches_hole', 'register_set_from_hexstr'):
         ps = R.paths(fn, 'C04.b', eng)
         if ps is None:
             continue
@@ -177,7 +180,7 @@ def rule_b(ck, R):
         if un == 0 and bad is None:
             bad = 'no UNINITIALISED answer'
         ck.verdict(bad is None, 'C04.b', fn, R.where(fn), 'tests INITIALISED first and answers UNINITIALISED without any access' if bad is None else bad)
-    ck.floor('C04.b', 'gated public operations', n, 8)
+    ck.floor('C04.b', 'gated public operations', n, 10)
     # the remaining public entry points reach the table only through gated ones
     for fn, via in (('register_set', 'register_setx'), ('register_set_unsafe', 'register_setx'), ('register_bit_set', 'register_get'),
                     ('register_bit_clear', 'register_get'), ('register_compare', 'register_get')):
